@@ -90,6 +90,17 @@ def cases(tier, seed):
                 if a + c == 0:
                     continue
                 out.append({"id": "ord/n%d/a%d/c%d" % (n, a, c), "kind": "ord", "n": n, "a": a, "c": c, "cost": 3 ** n})
+    # larger ensembles: the stateless rules depend on the number of drifting members only, so every count 0..n is applied (a few
+    # placements each, warnings mixed in) for every size up to nbig, with whole and half-integer thresholds
+    nbig = 40 if tier == "quick" else 120
+    for n in range(nmax + 1, nbig + 1):
+        out.append({"id": "counts/n%d" % n, "kind": "counts", "n": n, "seed": [seed, 1313, n], "cost": n * n / 20.0})
+    # thresholds that are not whole numbers ("at least a" with a = n / 2 for an odd ensemble)
+    for n in range(0, 6):
+        for a2 in range(1, 2 * n + 4, 2):
+            out.append({"id": "min/n%d/a%g" % (n, a2 / 2), "kind": "min", "n": n, "a": a2 / 2, "cost": 3 ** n})
+            out.append({"id": "ord/n%d/a%g/c1" % (n, a2 / 2), "kind": "ord", "n": n, "a": a2 / 2, "c": 1, "cost": 3 ** n})
+            out.append({"id": "ord/n%d/a1/c%g" % (n, a2 / 2), "kind": "ord", "n": n, "a": 1, "c": a2 / 2, "cost": 3 ** n})
     cn = 4 if tier == "quick" else 5
     wmax = 3 if tier == "quick" else 5
     for n in range(1, cn + 1):
@@ -97,6 +108,9 @@ def cases(tier, seed):
             for wt in range(0, wmax + 1):
                 out.append({"id": "conf/n%d/s%d/w%d" % (n, sens, wt), "kind": "conf", "n": n,
                             "sens": sens, "wt": wt, "cost": (9 * (wt + 1)) ** n})
+    for n in range(1, 4):
+        for s2 in range(1, 2 * n + 2, 2):
+            out.append({"id": "conf/n%d/s%g/w2" % (n, s2 / 2), "kind": "conf", "n": n, "sens": s2 / 2, "wt": 2, "cost": 27 ** n})
     # one election object applied to lists of different lengths (the rule is about every list, whatever was voted on before)
     for kind in ("maj", "min", "ord"):
         for i in range(12 if tier == "quick" else 60):
@@ -112,7 +126,7 @@ def targets(tier):
     return {"stateless_evaluations": 10000, "confirmed_transitions": 10000, "confirmed_joint_states": 300,
             "monotonicity_flips": 3000, "contract_evaluations": 20000, "confirmed_drift": 100,
             "confirmed_warning": 100, "random_sequence_steps": 5000, "shared_instance_calls": 5000,
-            "evaluations_with_equal_but_distinct_state_objects": 20000}
+            "evaluations_with_equal_but_distinct_state_objects": 20000, "count_profile_evaluations": 20000}
 
 
 def expected_stateless(case, k, n):
@@ -204,6 +218,41 @@ def run_case(case, ctx):
         ctx.sample = {"kind": kind, "params": {k_: case[k_] for k_ in ("n", "a", "c") if k_ in case},
                       "vectors_applied": 3 ** n, "verdicts_seen": sorted(map(str, seen))}
         return
+    if kind == "counts":
+        n = case["n"]
+        rng = np.random.default_rng(case["seed"])
+        W = wrapped_classes()
+        rules = [("maj", {"kind": "maj"}, W["SimpleMajorityElection"]())]
+        for a in sorted({1, n // 2, (n + 1) // 2, n // 2 + 1, n, n + 1, n / 2, n / 3}):
+            if a > 0:
+                rules.append(("min", {"kind": "min", "a": a}, W["MinimumApprovalElection"](a)))
+        for a, c in ((1, n // 2), (n // 2, 1), (n // 3, n // 3), (n / 2, 0), (1, n / 2 - 0.5)):
+            if a + c > 0 and a >= 0 and c >= 0:
+                rules.append(("ord", {"kind": "ord", "a": a, "c": c}, W["OrderedApprovalElection"](a, c)))
+        for k in range(n + 1):
+            for rep in range(3):
+                vec = ["drift"] * k + [None if rng.random() < 0.6 else "warning" for _ in range(n - k)]
+                if rep == 1:
+                    vec = vec[::-1]
+                elif rep == 2:
+                    vec = [vec[j] for j in rng.permutation(n)]
+                for rname, params, el in rules:
+                    try:
+                        r = el([Stub(fresh(s) if (j + k) % 5 == 0 else s) for j, s in enumerate(vec)])
+                    except PostBroken as e:
+                        ctx.violation("C13/%s/range" % rname, "election returned a value outside {drift, None}: %s" % e, params=params, n=n, drifting=k)
+                        return
+                    ctx.count("count_profile_evaluations")
+                    exp = "drift" if expected_stateless(params, k, n) else None
+                    seen.add(r)
+                    if r != exp:
+                        ctx.violation("C13/%s/verdict_large_ensemble" % rname, "%d members, %d of them drifting (%s): returned %r, rule says %r" % (
+                            n, k, params, r, exp), params=params, n=n, drifting=k, votes=vec)
+                        return
+        ctx.nontrivial = len(seen) >= 2
+        ctx.digest = "counts-%d" % n
+        ctx.sample = {"kind": "every drift count in a larger ensemble", "n": n, "rules": [p_ for _, p_, _ in rules]}
+        return
     if kind == "shared":
         rng = np.random.default_rng(case["seed"])
         rule = case["rule"]
@@ -277,6 +326,8 @@ def run_case(case, ctx):
         rng = np.random.default_rng(case["seed"])
         n = int(rng.integers(4, 9))
         sens = int(rng.integers(1, n + 2))
+        if rng.random() < 0.3:
+            sens = sens - 0.5  # "voters reach sensitivity" for a sensitivity that is not a whole number
         wt = int(rng.integers(0, 7))
         W = wrapped_classes()
         e = W["ConfirmedElection"](sens, wt)
